@@ -52,7 +52,16 @@ META = dict(
          "re-entrancy), and Locks.nested_entry_no_deadlock instantiates it with the order of the unchanged code "
          "(recursion_lock before packrat_cache_lock: Forward.parseImpl holds recursion_lock around actions whose nested "
          "reset_cache() takes packrat_cache_lock; nothing takes recursion_lock while holding packrat_cache_lock); "
-         "Locks.Ex.two_orders_unorderable / two_orders_deadlock show the hypothesis cannot be dropped. Checked on the real "
+         "the lock machine is stated for any number of locks (0 = recursion_lock, 1 = packrat_cache_lock, 2+i = a lock "
+         "stored on an element instance); that the current source has exactly the two class-wide locks and that every "
+         "Forward uses the class-wide recursion_lock are GENERATED facts read from the live objects "
+         "(Gen/C15Locks.lean; forward_lock_is_class_wide, class_locks_are_two break when they change); "
+         "Locks.Ex.two_orders_unorderable / two_orders_deadlock (an entry that takes recursion_lock first) and "
+         "per_forward_locks_unorderable / per_forward_locks_deadlock (one lock per Forward: order follows the grammar "
+         "traversal) show the hypothesis cannot be dropped. The scheduler also wraps any lock it finds on an element "
+         "instance, and explores grammars with 2-3 mutually recursive Forwards entered at DIFFERENT rules in "
+         "left-recursion mode for deadlocks. The tagged-action leg also places a thread's CALL of parse_string() "
+         "(not only its progress) while another thread is suspended inside a parse action. Checked on the real "
          "code: every thread's logged lock operations respect that order; the model predicts the complete event trace "
          "of nested-call grammars under forced schedules (off/packrat); and the scheduler explores ALL lock-region "
          "interleavings plus every placement of the other threads' entry relative to a first thread's lock operations "
@@ -89,13 +98,69 @@ THEOREMS = [
     "PP.Threads.Locks.packrat_nested_ordered",
     "PP.Threads.Locks.lr_nested_ordered",
     "PP.Threads.Locks.nested_entry_no_deadlock",
+    "PP.Threads.Locks.forward_lock_is_class_wide",
+    "PP.Threads.Locks.class_locks_are_two",
     "PP.Threads.Locks.Ex.two_orders_unorderable",
     "PP.Threads.Locks.Ex.two_orders_deadlock",
+    "PP.Threads.Locks.Ex.per_forward_locks_unorderable",
+    "PP.Threads.Locks.Ex.per_forward_locks_deadlock",
     "PP.Threads.LR.lr_race_witness",
     "PP.Threads.LR.lr_reset_race_witness",
 ]
 
 SIG = "lr_mode_shared_memo"
+
+GEN_REL = "PPProofs/Props/Gen/C15Locks.lean"
+
+
+def lock_facts(pp):
+    """which lock objects exist, read from the LIVE package: lock-typed class attributes of ParserElement and all its
+    subclasses; lock objects stored on element instances of probe grammars; identity of every Forward's
+    `recursion_lock` with the class-wide one"""
+    PE = pp.ParserElement
+
+    def subs(c):
+        yield c
+        for d in c.__subclasses__():
+            yield from subs(d)
+
+    names = set()
+    for c in set(subs(PE)):
+        for k, v in vars(c).items():
+            if isinstance(v, S.LOCK_TYPES):
+                names.add(k)
+    exprs = []
+    for b in N.lr_grammars(pp).values():
+        exprs += list(b("parse").values())
+    for b in N.grammars(pp).values():
+        exprs += list(b("parse").values())
+    for b in lr_grammars(pp).values():
+        exprs.append(b())
+    for b in grammars(pp).values():
+        exprs.append(b())
+    inst = S.instance_locks(exprs)
+    fwds = [e for e in S.walk(exprs) if isinstance(e, pp.Forward)]
+    fwd_ok = bool(fwds) and all(getattr(e, "recursion_lock", None) is PE.recursion_lock for e in fwds)
+    return sorted(names), len(inst), fwd_ok, len(fwds)
+
+
+def gen_lock_facts(names, n_inst, fwd_ok):
+    lst = ", ".join('"' + n + '"' for n in names)
+    return f'''/-! GENERATED by harness/props/c15.py from the live pyparsing package (lock objects reachable from the classes and
+    from freshly built grammar elements). Do not edit. -/
+namespace PP.Threads.Locks.Gen
+
+/-- names of the lock-typed attributes defined by ParserElement and its subclasses (class level) -/
+def classLocks : List String := [{lst}]
+
+/-- number of lock objects stored on element INSTANCES of the probe grammars (Forward, And, MatchFirst, ...) -/
+def instanceLocks : Nat := {n_inst}
+
+/-- `Forward().recursion_lock is ParserElement.recursion_lock` (for every Forward of the probe grammars) -/
+def forwardUsesClassRecursionLock : Bool := {"true" if fwd_ok else "false"}
+
+end PP.Threads.Locks.Gen
+'''
 
 
 # ------------------------------------------------------------------------------------------------
@@ -181,6 +246,13 @@ def lr_grammars(pp):
 LR_INPUTS = {"lsum": ["1+2+3", "4", "1+"], "lterm": ["1-2*3-4", "5*6", "7-"], "base": ["1", "12"]}
 
 
+def exprs_of(c):
+    """the grammars of a case (the scheduler wraps lock objects stored on their element instances, if any)"""
+    if getattr(c, "expr", None) is not None:
+        return [c.expr]
+    return list(getattr(c, "g", {}).values())
+
+
 def outcome_of(pp, fn):
     try:
         return fn()
@@ -238,12 +310,16 @@ class Case:
         c.gname, c.entry, c.inputs, c.lr = desc.get("grammar"), desc.get("scenario"), desc.get("inputs", []), False
         c.I = S.Interner()
         c.serial, c.rows, c.learn_ok = None, None, False
+        # every thread parks BEFORE it enters its entry point: the schedule decides when a call begins (a thread that
+        # calls parse_string() while another one is in the middle of its parse is a different schedule from one that
+        # called it earlier and waits for the lock)
+        c.start_park = bool(desc.get("start_park", False))
         return c
 
     def learn_serial(self):
         self.serial = []
         for fn in self.fns:
-            with S.Session(self.pp, self.mode, self.I) as ses:
+            with S.Session(self.pp, self.mode, self.I, exprs=exprs_of(self)) as ses:
                 self.serial.append(ses.run_serial(fn))
         return self
 
@@ -260,7 +336,7 @@ class Case:
         """serial runs (each call alone): expected outcomes + call tables for the model"""
         self.serial, rows = [], {}
         for t, fn in enumerate(self.fns):
-            with S.Session(self.pp, self.mode, self.I) as ses:
+            with S.Session(self.pp, self.mode, self.I, exprs=exprs_of(self)) as ses:
                 out = ses.run_serial(fn)
             self.serial.append(out)
             dk = self.driver_key(t)
@@ -298,7 +374,8 @@ class Case:
             dumps(x) for x in (sz, self.table_sexp(), self.roots_sexp(), [Sym("gran"), Sym(gran)], extra))
 
     def forced(self, gran, sched=None, chooser=None):
-        with S.Session(self.pp, self.mode, self.I, gran=gran) as ses:
+        with S.Session(self.pp, self.mode, self.I, gran=gran, exprs=exprs_of(self),
+                       start_park=getattr(self, "start_park", False)) as ses:
             outs, status = ses.run_controlled(self.fns, sched=sched, chooser=chooser)
         return ses, outs, status
 
@@ -558,7 +635,7 @@ def leg_fine(ctx, pp, cases, n_per_case, tag):
             if len(ctx.fail_inputs) >= 3:
                 break
             horizon = rng.choice([30, 80, 200, 500])
-            with S.Session(pp, c.mode, c.I, gran="fine") as ses:
+            with S.Session(pp, c.mode, c.I, gran="fine", exprs=exprs_of(c)) as ses:
                 outs, status = ses.run_controlled(c.fns, chooser=preempt_chooser(rng, len(c.fns), horizon))
             c.check_outcomes(ctx, outs, status, {"gran": "fine", "sched": list(ses.sched_done)}, stats)
             n += 1
@@ -576,7 +653,7 @@ def leg_stress(ctx, pp, cases, rounds, tag):
                 break
             reps = 6
             fns = [(lambda f=f: [f() for _ in range(reps)]) for f in c.fns]
-            with S.Session(pp, c.mode, c.I) as ses:
+            with S.Session(pp, c.mode, c.I, exprs=exprs_of(c)) as ses:
                 outs, status = ses.run_free(fns)
             flat_bad = None
             if status == "deadlock":
@@ -659,7 +736,7 @@ TAGGED_INPUTS = {"seq3": ["alpha", "beta", "gamma"], "backtrack": ["alpha", "bet
                  "groups": ["a", "1", "b", "c", "2"]}
 
 
-def tagged_case(pp, mode, gname, n, distinct=False):
+def tagged_case(pp, mode, gname, n, distinct=False, start_park=False):
     """n threads parse VALUE-EQUAL (but distinct) strings with a shared grammar whose actions tag every token with
     the calling thread's name (thread-local context): run alone, call t returns only T<t>:... tokens"""
     expr = tagged_grammars(pp)[gname]()
@@ -672,7 +749,8 @@ def tagged_case(pp, mode, gname, n, distinct=False):
             return outcome_of(pp, lambda: "res " + S.canon_results(expr.parse_string(s)))
         return fn
 
-    desc = {"scenario": "tagged", "grammar": gname, "inputs": inputs, "n": n, "distinct": distinct}
+    desc = {"scenario": "tagged", "grammar": gname, "inputs": inputs, "n": n, "distinct": distinct,
+            "start_park": start_park}
     return Case.custom(pp, mode, desc, [mk(t, s) for t, s in enumerate(inputs)]).learn_serial()
 
 
@@ -713,7 +791,8 @@ def pipeline_case(pp, mode, n_workers):
 
 def build_scenario(pp, case):
     if case["scenario"] == "tagged":
-        return tagged_case(pp, case["mode"], case["grammar"], case["n"], case.get("distinct", False))
+        return tagged_case(pp, case["mode"], case["grammar"], case["n"], case.get("distinct", False),
+                           case.get("start_park", False))
     if case["scenario"] == "pipeline":
         return pipeline_case(pp, case["mode"], case["n_workers"])
     raise ValueError(case["scenario"])
@@ -754,7 +833,7 @@ def count_yields(c, t, kind):
             n[0] += 1
         return en[0]
 
-    with S.Session(c.pp, c.mode, c.I, gran="region") as ses:
+    with S.Session(c.pp, c.mode, c.I, gran="region", exprs=exprs_of(c)) as ses:
         ses.run_controlled([c.fns[t]], chooser=ch)
     return n[0]
 
@@ -786,16 +865,19 @@ def leg_tagged(ctx, pp):
     for gname in tagged_grammars(pp):
         for mode in modes:
             for n, distinct in ((2, False), (3, False), (3, True)):
-                c = tagged_case(pp, mode, gname, n, distinct)
-                for first in range(n):
-                    ky = count_yields(c, first, "act")
-                    for k in range(1, ky + 1):
-                        if len(ctx.fail_inputs) >= 3:
-                            break
-                        ses, outs, status = c.forced("region", chooser=directed_chooser(first, k, "act"))
-                        c.check_outcomes(ctx, outs, status, {"gran": "region", "sched": list(ses.sched_done),
-                                                             "suspended": [first, k]}, stats)
-                        n_cases += 1
+                # start_park False: the other threads have already called parse_string() and wait for the lock in
+                # their entry reset_cache(); True: they CALL parse_string() while `first` is in the middle of its parse
+                for sp in (False, True):
+                    c = tagged_case(pp, mode, gname, n, distinct, start_park=sp)
+                    for first in range(n):
+                        ky = count_yields(c, first, "act")
+                        for k in range(1, ky + 1):
+                            if len(ctx.fail_inputs) >= 3:
+                                break
+                            ses, outs, status = c.forced("region", chooser=directed_chooser(first, k, "act"))
+                            c.check_outcomes(ctx, outs, status, {"gran": "region", "sched": list(ses.sched_done),
+                                                                 "suspended": [first, k]}, stats)
+                            n_cases += 1
     ctx.count_cases("oracle-tagged-actions", n_cases, outcomes=stats,
                     distinct_keys=[f"{g}|{m}" for g in tagged_grammars(pp) for m in modes],
                     samples=[{"scenario": "tagged", "grammar": "seq3", "n": 2, "suspended": [0, 1]}])
@@ -824,7 +906,10 @@ def leg_pipeline(ctx, pp):
 
 def run(ctx):
     pp = common.import_pyparsing()
-    ctx.proof_leg("PPProofs.Props.C15", THEOREMS)
+    names, n_inst, fwd_ok, n_fwd = lock_facts(pp)
+    ctx.notes["lock_facts"] = {"class_locks": names, "instance_locks": n_inst, "forwards_probed": n_fwd,
+                               "forward_uses_class_lock": fwd_ok}
+    ctx.proof_leg("PPProofs.Props.C15", THEOREMS, generated={GEN_REL: gen_lock_facts(names, n_inst, fwd_ok)})
     ctx.assumptions += [
         "C15: a single dict operation is atomic (GIL) and threading.RLock is a correct re-entrant lock",
         "C15: left-recursion mode is covered only by the two registered witnesses of lr_mode_shared_memo and by "
@@ -901,13 +986,14 @@ def replay(data):
         for _ in range(30):
             reps = case.get("reps", 6)
             fns = [(lambda f=f: [f() for _ in range(reps)]) for f in c.fns]
-            with S.Session(pp, c.mode, c.I) as ses:
+            with S.Session(pp, c.mode, c.I, exprs=exprs_of(c)) as ses:
                 outs, status = ses.run_free(fns)
             if status == "deadlock" or any(
                     not isinstance(o, list) or any(x != e for x in o) for o, e in zip(outs, c.serial)):
                 return True
         return False
-    with S.Session(pp, c.mode, c.I, gran=gran) as ses:
+    with S.Session(pp, c.mode, c.I, gran=gran, exprs=exprs_of(c),
+                   start_park=getattr(c, "start_park", False)) as ses:
         outs, status = ses.run_controlled(c.fns, sched=list(case["sched"]))
     print("serial  :", c.serial)
     print("threads :", outs, status)
